@@ -150,8 +150,9 @@ def parse_sinusoid(text, unit):
 
 
 def dc_program(rng):
-    return drawgen.random_program(rng, kinds=['Resistor', 'Resistor', 'Conductance', 'VoltageSource', 'CurrentSource'], max_cells=2,
-                                  with_ground=True, n_labels=rng.randint(0, 2))
+    p = drawgen.random_program(rng, kinds=['Resistor', 'Resistor', 'Conductance', 'VoltageSource', 'CurrentSource'], max_cells=2,
+                               with_ground=True, n_labels=rng.randint(0, 2))
+    return p
 
 
 def ac_program(rng, w):
@@ -205,7 +206,15 @@ def examine_drawing(ctx, program, rng, ac_w=None):
                     ctx.count(f'kind:{kind}')
                     rep = dict(rep0, element=name, quantity=q, reverse=reverse, kind=kind, precision=pp)
                     try:
-                        text = getattr(ad.solution, 'get_' + q)(name=name, reverse=reverse)
+                        # through the public drawing call: the text is read from the label symbol it returns
+                        sym = getattr(ad, 'draw_' + q)(name=name, reverse=reverse)
+                        labs = [l.label for l in getattr(sym, '_userlabels', [])]
+                        text = labs[0] if labs else None
+                        inner = getattr(ad.solution, 'get_' + q)(name=name, reverse=reverse)
+                        if text != inner:
+                            ctx.violation('C14:label-differs-from-adapter-text', f'{kind} draw_{q}({name!r}, reverse={reverse}) shows {text!r}, the '
+                                          f'adapter computed {inner!r}', rep)
+                            continue
                         ref = getattr(sol, 'get_' + q)(name)
                     except Exception as e:  # noqa: BLE001
                         ctx.violation(f'C14:annotation-raises-{type(e).__name__}', f'{kind} {q}({name}): {str(e)[:100]}', rep)
